@@ -35,6 +35,12 @@ def init_symbolic():
     from . import symre
 
     STUBS.extend(symre.install_text(betterproto.casing, betterproto.compile.importing))
+    import betterproto.compile.naming  # noqa: F401
+    import betterproto.enum  # noqa: F401
+    import betterproto.utils  # noqa: F401
+    from . import procstate
+
+    procstate.snapshot(src)
     explore.start_coverage(src)
 
 
@@ -51,6 +57,12 @@ def init_native():
     import betterproto
 
     assert betterproto.__file__.startswith(src), betterproto.__file__
+    import betterproto.casing  # noqa: F401
+    import betterproto.compile.importing  # noqa: F401
+    import betterproto.compile.naming  # noqa: F401
+    from . import procstate
+
+    procstate.snapshot(src)
 
 
 def harness_module(prop):
